@@ -142,6 +142,32 @@ theorem Src_value_of_ordinary (p : Params) (sens : List (Addr × Int)) (addr : A
   | none => simp [mkHost, hl]
   | some v => simp [hl] at h
 
+
+theorem onehotB_length (n i : Nat) : (onehotB n i).length = n := by simp [onehotB]
+
+/-- **Capstone of this module.**  The three dictionaries the source builds for a host from a sampled configuration
+`cfg = (os, service flags, process flags)` — over the name lists the source itself generates (`_generate_os` …) — read
+back, name by name, as the flag lists the model's `mkHost` keeps; and the host's value is the translated
+`_get_host_value`.  Hypotheses: the configuration has one flag per generated service / process (what
+`_possible_host_configs` / `_sample_config` produce). -/
+theorem Src_mkHost_maps (p : Params) (sens : List (Addr × Int)) (addr : Addr) (cfg : Cfg)
+    (hs : cfg.2.1.length = p.numServices) (hp : cfg.2.2.length = p.numProcesses) (i : Nat) :
+    ((SrcGen.ScenarioGenerator._convert_to_os_map (SrcGen.ScenarioGenerator._generate_os p.numOs) cfg.1).lookup i).getD false
+        = (mkHost p sens addr cfg).os.getD i false ∧
+    ((SrcGen.ScenarioGenerator._convert_to_service_map (SrcGen.ScenarioGenerator._generate_services p.numServices) cfg.2.1).lookup i).getD false
+        = (mkHost p sens addr cfg).svc.getD i false ∧
+    ((SrcGen.ScenarioGenerator._convert_to_process_map (SrcGen.ScenarioGenerator._generate_processes p.numProcesses) cfg.2.2).lookup i).getD false
+        = (mkHost p sens addr cfg).proc.getD i false ∧
+    SrcGen.ScenarioGenerator._get_host_value sens p.baseHostValue addr = (mkHost p sens addr cfg).value := by
+  have hos : SrcGen.ScenarioGenerator._generate_os p.numOs = List.range p.numOs := rfl
+  have hsv : SrcGen.ScenarioGenerator._generate_services p.numServices = List.range p.numServices := rfl
+  have hpr : SrcGen.ScenarioGenerator._generate_processes p.numProcesses = List.range p.numProcesses := rfl
+  rw [hos, hsv, hpr, Src_convert_os_map, Src_convert_service_map, Src_convert_process_map]
+  refine ⟨?_, ?_, ?_, rfl⟩
+  · exact lookup_range_zip _ _ i (onehotB_length _ _)
+  · exact lookup_range_zip _ _ i hs
+  · exact lookup_range_zip _ _ i hp
+
 example : SrcGen.ScenarioGenerator._convert_to_os_map [0, 1, 2] 1 = [(0, false), (1, true), (2, false)] := by decide
 example : SrcGen.ScenarioGenerator._convert_to_service_map [0, 1] [true, false] = [(0, true), (1, false)] := by decide
 end NASim
